@@ -129,4 +129,36 @@ CLAIMED["C13"] = {
     "technique": "Coq proof of totality of modelled kernels + exhaustive pool enumeration on the implementation",
 }
 
+_LEX = ("Coq kernel + vm_compute; the scanner step coq/Gen/LexGen.v is regenerated from Lexer.scan on every run by tools/translate/lexer_gen.py "
+        "(fail-closed symbolic execution of the loop body; Prelude/LexPrelude.v gives the meaning of the Python string operations used) and compared "
+        "with Lexer.scan on the run's texts; the parser has no Gallina model; no axioms.")
+CLAIMED["C14"] = {
+    "text": ("Theorems in coq/Props/C14.v about the scanner step regenerated from Lexer.scan: in the blank state every layout character (space, tab, CR, LF) "
+             "and every # comment up to its line break is consumed without emitting or changing the token list, for all texts (gap_irrelevant, "
+             "leading_gap_irrelevant: two texts differing only in such gaps at token boundaries in the blank state give the same token values and types). "
+             "Gaps after look-ahead tokens, literal spellings, != / <>, redundant parentheses and trailing semicolons are decided by the correspondence: "
+             "each generated program is re-rendered >= 10 times over all layout and spelling choices and must give the same canonical result, output and "
+             "error value on the implementation (partial)."),
+    "note": _LEX,
+    "technique": "Coq proof over a Gallina scanner regenerated from the source + re-rendering correspondence on the interpreter",
+}
+CLAIMED["C20"] = {
+    "text": ("Theorems in coq/Props/C20.v about the regenerated scanner step: the line/column counters advance with the characters in every state, a token "
+             "is stamped with the position recorded when the scanner left the blank state, hence every token of every text carries the line and column of "
+             "its first character (lex_positions, lex_token_line). That syntax errors, runtime errors, stack-trace entries and module errors copy those "
+             "positions is decided on the implementation: token kinds x following characters, and generated programs with one planted fault under random "
+             "multi-line layouts (partial: the parser/evaluator side is not a theorem)."),
+    "note": _LEX,
+    "technique": "Coq proof over a Gallina scanner regenerated from the source + planted-fault enumeration on the interpreter",
+}
+CLAIMED["C01"] = {
+    "text": ("Theorems in coq/Props/C01.v about the regenerated scanner step: for every text the scanner yields a token list or a lexical error within three "
+             "steps per character (lex_total, step_shape; a host exception is not an outcome of the generated step: the translator accepts int(..,16)/chr only "
+             "under the guards present in the source). The recursive-descent parser has no model: its totality is decided by enumeration of the property's "
+             "quantifier on the implementation (about 700,000 distinct texts per quick run: prefixes, single-token edits over the token alphabet read from "
+             "lexer.py/parser.py, token sequences, noise; each parsed twice under a 3 s bound) - C01_parse_partial."),
+    "note": _LEX,
+    "technique": "Coq proof of scanner totality over a regenerated Gallina scanner + exhaustive edit enumeration on the parser",
+}
+
 NOT_APPLICABLE = {}
